@@ -400,6 +400,26 @@ def c14_oracle(op, impl):
                     return ("timestamp member does not carry the claim's value to the nanosecond", "json/claims/ts")
             elif v != "s" + x:
                 return ("string member differs from the claim", "json/claims/string")
+    elif t[0] == "claims.json":
+        if not impl.startswith("ok "):
+            return ("encoding registered claims failed", "json/claims/encode")
+        import json
+        text = unhex(impl[3:])
+        try:
+            pairs = json.loads(text.decode("utf-8"), object_pairs_hook=list)
+        except Exception:
+            return ("the encoded claims are not a JSON document", "json/claims/not-json")
+        names = ["iss", "sub", "aud", "exp", "nbf", "iat", "jti"]
+        cl = t[1].split(",")
+        present = [n for n, x in zip(names, cl) if x != "~"]
+        if not isinstance(pairs, list) or [k for k, _ in pairs] != present:
+            return ("the encoded object does not consist of exactly the present claims in the order iss sub aud exp nbf iat jti", "json/claims/members")
+        for (k, v), x in zip(pairs, [x for x in cl if x != "~"]):
+            if k in ("iss", "sub", "aud", "jti"):
+                if not isinstance(v, str) or v.encode("utf-8", "surrogatepass") != unhex(x):
+                    return ("string member %s does not read back byte for byte" % k, "json/claims/string")
+            elif not isinstance(v, str) or not v.endswith("Z") or "T" not in v:
+                return ("timestamp member %s is not an RFC 3339 UTC string" % k, "json/claims/ts")
     elif t[0] == "claims.dec":
         if impl.startswith("ok ") and "gen=1" not in impl:
             return ("decoded claims disagree with what a generic JSON parser reads for the members", "json/claims/generic")
@@ -412,6 +432,8 @@ def c14_nontrivial(op, impl):
         return ("enc", tuple(x != "~" for x in t[1].split(",")))
     if t[0] == "o.json":
         return ("json", t[1][:40], impl[:30])
+    if t[0] == "claims.json":
+        return ("text", tuple(x != "~" for x in t[1].split(",")), min(len(impl) // 256, 8))
     top = t[2]
     if top.startswith("X:"):
         return ("dec-raw", top)
@@ -477,9 +499,9 @@ def open_oracle(prop):
     def f(op, impl):
         t = op.split(" ")
         be = t[1] if len(t) > 1 else "?"
-        if t[0] in ("loc.open", "pub.open"):
+        if t[0] in ("loc.open", "pub.open", "locc.open", "pubc.open"):
             want = want_of(op)
-            purpose = "local" if t[0] == "loc.open" else "public"
+            purpose = "local" if t[0].startswith("loc") else "public"
             if impl == "panic":
                 return ("panic while opening a token", "%s/%s/open-panic" % (be, purpose))
             if want == "err":
@@ -504,6 +526,9 @@ def open_oracle(prop):
         elif t[0] == "o.fcanon":
             if impl.startswith("ok ") and "genuine=1" not in impl:
                 return ("a token with a footer of a custom footer type did not round-trip: " + impl[:80], "%s/%s/footer-roundtrip" % (be, t[2]))
+            if "noncanon_ok=0" in impl:
+                return ("a genuine token whose footer bytes are not the footer type's own spelling (as another implementation writes them) was rejected "
+                        "or rewritten (the footer is authenticated as received): " + impl[:100], "%s/%s/footer-noncanonical-rejected" % (be, t[2]))
             if "alt_reser=0" in impl:
                 return ("a token string accepted with a custom footer type does not re-serialise to itself (the footer text is rewritten): " + impl[:90], "%s/%s/footer-text-rewritten" % (be, t[2]))
             if "altered_accepted=1" in impl or (impl.startswith("ok ") and "dec=0 val=0" not in impl):
@@ -702,9 +727,15 @@ def c08_oracle(op, impl):
                     return ("off-curve bytes accepted as public key", "%s/key/off-curve" % be)
             elif kind in ("secret", "pkesecret") and len(raw) != 64:
                 return ("wrong-length secret key accepted", "%s/key/length" % be)
-        if v == 1 and kind in ("public", "pkepublic") and raw[:1] == b"\x30":
-            bits = rsa_spki_bits(raw)
-            want = 2048 if kind == "public" else 4096
+        if v == 1:
+            # whatever form the key was offered in (DER, PEM), the canonical re-encoding the library returns tells its size
+            out = unhex(impl.split(" ")[1]) if len(impl.split(" ")) > 1 else b""
+            bits = None
+            if kind in ("public", "pkepublic"):
+                bits = rsa_spki_bits(out) if out[:1] == b"\x30" else (rsa_spki_bits(raw) if raw[:1] == b"\x30" else None)
+            else:
+                bits = rsa_priv_bits(out) if out[:1] == b"\x30" else None
+            want = 2048 if kind in ("public", "secret") else 4096
             if bits is not None and bits != want:
                 return ("RSA modulus of %d bits accepted as a %s key (must be %d)" % (bits, kind, want), "%s/key/modulus-size" % be)
         if v == 3:
@@ -733,6 +764,17 @@ def rsa_spki_bits(raw):
         t, bits, _ = der_tlv(seq, j)
         t, key, _ = der_tlv(bits[1:], 0)
         t, n, _ = der_tlv(key, 0)
+        return int.from_bytes(n, "big").bit_length() if t == 2 else None
+    except Exception:
+        return None
+
+
+def rsa_priv_bits(raw):
+    """modulus bit length of a PKCS#1 RSAPrivateKey (DER), or None"""
+    try:
+        t, seq, _ = der_tlv(raw, 0)
+        t, ver, j = der_tlv(seq, 0)
+        t, n, _ = der_tlv(seq, j)
         return int.from_bytes(n, "big").bit_length() if t == 2 else None
     except Exception:
         return None
@@ -805,6 +847,13 @@ def c13_oracle(op, impl):
         want_text_hdr = ("k%d.%s." % (v, {"pkesecret": "secret", "pkepublic": "public"}.get(t[2], t[2]))).encode()
         if not text.startswith(want_text_hdr):
             return ("PASERK text of the key does not start with %s" % want_text_hdr.decode(), "%s/id/text-header" % be)
+        # a key offered in its canonical raw form has that very form as the body of its PASERK text (fixed-length keys, and
+        # RSA keys given as canonical DER): the id is then the digest of a string fixed by the key alone
+        raw_in = unhex(t[3])
+        fixed = (v in (2, 4)) or (v == 3 and t[2] in ("local", "secret", "pkesecret")) or (v == 3 and len(raw_in) == 49 and raw_in[0] in (2, 3)) \
+            or (v == 1 and (t[2] == "local" or raw_in[:1] == b"\x30"))
+        if fixed and text != want_text_hdr + base64.urlsafe_b64encode(raw_in).rstrip(b"="):
+            return ("the PASERK text of a key offered in canonical form is not that form (text of %d characters for %d key bytes)" % (len(text), len(raw_in)), "%s/id/text-canonical" % be)
         if v in (1, 3):
             d = hashlib.sha384(hdr + text).digest()[:33]
         else:
